@@ -93,16 +93,14 @@ def queries(tier):
                     continue    # 2x1 and larger take 2-4 min each: thorough tier
                 q('bignum_%s[%d,%d]' % (op.lower(), a, b), {'OP': OPN[op], 'AK': a, 'BK': b}, ['sexp_bignum_' + op.lower()], backends=pf)
                 q('bignum_%s[%d,%d,dst=a]' % (op.lower(), a, b), {'OP': OPN[op], 'AK': a, 'BK': b, 'ALIAS': 1}, ['sexp_bignum_' + op.lower()], backends=pf)
-        if tier != 'quick':
-            q('bignum_%s[2,2,dst=3]' % op.lower(), {'OP': OPN[op], 'AK': 2, 'BK': 2, 'DSTK': 3}, ['sexp_bignum_' + op.lower()], backends=pf)
     # magnitude kernels with concrete lengths (top words non-zero): cheap enough for the quick tier at 2x2 and 3x2
     for a in range(1, K + 2):
         for b in range(1, K + 1):
             if b > a or (tier == 'quick' and a + b > 5):
                 continue
             w = a + 1
-            q('add_digits[%d,%d]' % (a, b), {'OP': OPN['ADDD'], 'AK': a, 'BK': b, 'KIT_MAXW': w, 'WIDE_BITS': 64 * w + 64}, ['sexp_bignum_add_digits'], backends=pf)
-            q('sub_digits[%d,%d]' % (a, b), {'OP': OPN['SUBD'], 'AK': a, 'BK': b, 'KIT_MAXW': w, 'WIDE_BITS': 64 * w + 64}, ['sexp_bignum_sub_digits'], backends=pf)
+            q('add_digits[%d,%d]' % (a, b), {'OP': OPN['ADDD'], 'AK': a, 'BK': b, 'KIT_MAXW': w, 'WIDE_BITS': 64 * w + 64}, ['sexp_bignum_add_digits'], backends=pf, unwind=w + 2)
+            q('sub_digits[%d,%d]' % (a, b), {'OP': OPN['SUBD'], 'AK': a, 'BK': b, 'KIT_MAXW': w, 'WIDE_BITS': 64 * w + 64}, ['sexp_bignum_sub_digits'], backends=pf, unwind=w + 2)
     for a in range(1, K + 1):
         for b in range(1, K + 1):
             q('compare[%d,%d]' % (a, b), {'OP': OPN['CMP'], 'AK': a, 'BK': b},
@@ -226,7 +224,7 @@ def bounds(tier):
     K = 2 if tier == 'quick' else 3
     return {'domain': 'D-full: every word of every operand free, either sign, leading zero words allowed',
             'bignum_words': '1..%d per operand (exact object size)' % K,
-            'aliasing': 'dst = NULL, dst = a, dst = separate longer bignum (thorough)',
+            'aliasing': 'dst = NULL, dst = a (the two uses in the tree)',
             'oracle': '__CPROVER_bitvector[320] signed', 'unwind': 5}
 
 
